@@ -527,7 +527,7 @@ Proof.
       rewrite forallb_forall in H2. apply (H2 _ Hk).
     + unfold relabel. simpl. rewrite pv_nodeids_relabel. exact H1.
   - unfold d_del_graph. destruct (gn (dget d g)); [exact HU|]. apply DUniq_put; [exact HU | exact NUniq_empty].
-  - unfold d_clone. apply DUniq_add_graph; [|exact HU].
+  - destruct (d_clone_cases d g g2) as [[_ E]|[_ E]]; rewrite E; [exact HU|]. apply DUniq_add_graph; [|exact HU].
     unfold import_unique, d_extract. cbn [inodes]. apply count_le1_nodupb. intro n.
     rewrite (pv_count_le_cnt g).
     + apply HU.
@@ -661,7 +661,7 @@ Proof.
     + change (NoDup (map fst (inodes (relabel ig 1)))). rewrite relabel_inodes_fst. apply seqN_NoDup.
     + intros nd Hn. apply (relabel_snd_in ig 1) in Hn as [k Hk]. rewrite forallb_forall in H2. apply (H2 _ Hk).
   - unfold d_del_graph. destruct (gn (dget d g)); [exact H|]. apply DHome_put; [exact H | reflexivity].
-  - apply Hadd.
+  - destruct (d_clone_cases d g g2) as [[_ E]|[_ E]]; rewrite E; [exact H | apply Hadd].
   - destruct (pg_add_node (dget d g) g (dcounter d g) n c ps) as [G'|] eqn:E; simpl; [|exact H].
     intro g'. rewrite dget_dput_ctr. apply DHome_put; [exact H|].
     unfold pg_add_node in E. destruct (search (dget d g) [(k_graphid, g); (k_nodeid, n)]); [|discriminate].
